@@ -38,7 +38,7 @@ def lemma_fn(trigger):
 
 
 IDENTITY_FNS = {"float_bits": ("float", "int"), "float_from_bits": ("int", "float"),
-                "dset": None, "seq_items": None, "bv_to_int": None, "is_data": None}
+                "dset": None, "seq_items": None, "bv_to_int": None, "is_data": None, "set_add": None}
 
 
 def dset(d, k, v):
@@ -56,3 +56,8 @@ def seq_items(d):
 def is_data(x):
     """x is a data value, not one of the library's module-level sentinel objects (`X = object()`)"""
     return type(x) is not object
+
+
+def set_add(s, x):
+    """the set s with x added (spec helper)"""
+    return set(s) | {x}
